@@ -265,6 +265,9 @@ type xcfg struct {
 	// Fifo delivers messages of one (from,to) channel in send order (reordering
 	// only across channels); otherwise any in-flight message may be delivered.
 	Fifo bool
+	// KeepRemovedRunning: a replica whose removal was applied keeps being
+	// stepped (node.go stops it; at raft level it must simply never campaign)
+	KeepRemovedRunning bool
 	// LazyApply makes the apply worker a separate event (apply lag); otherwise
 	// the apply worker runs right after every step cycle.
 	LazyApply bool
@@ -770,7 +773,9 @@ func (c *cluster) takeMsg(i int, keep bool) pb.Message {
 	return out
 }
 
-func (c *cluster) live(r *replica) bool { return r.started && !r.stopped }
+func (c *cluster) live(r *replica) bool {
+	return r.started && (!r.stopped || c.cfg.KeepRemovedRunning)
+}
 
 // scriptEvent translates a Script item into an event.
 func scriptEvent(it string) uint32 {
@@ -984,6 +989,7 @@ func (c *cluster) cycle(r *replica, input func() error, crashPoint int) bool {
 	r.peer.NotifyRaftLastApplied(r.applied)
 	unapplied := r.vp.Committed() > r.applied
 	term0, role0 := r.vp.Term(), r.vp.Role()
+	selfRemoved0 := r.vp.SelfRemoved()
 	if input != nil {
 		if err := input(); err != nil {
 			c.fail("replica %d: handler returned error %v", r.id, err)
@@ -993,6 +999,9 @@ func (c *cluster) cycle(r *replica, input func() error, crashPoint int) bool {
 	if role := r.vp.Role(); unapplied && (role == raft.VCandidate || role == raft.VPreVoteCandidate || role == raft.VLeader) &&
 		role0 != raft.VLeader && (role != role0 || r.vp.Term() != term0) && !(role0 == raft.VCandidate && role == raft.VLeader) {
 		c.fail("C07: replica %d campaigned while committed entries (possibly a membership change) were unapplied", r.id)
+	}
+	if role := r.vp.Role(); (role == raft.VCandidate || role == raft.VPreVoteCandidate) && (role != role0 || r.vp.Term() != term0) && selfRemoved0 && r.vp.SelfRemoved() {
+		c.fail("C18: replica %d, removed from the membership, started a campaign", r.id)
 	}
 	more := r.sm.TaskQ().MoreEntryToApply()
 	if !(r.peer.HasUpdate(more) || r.confirmed != r.applied || r.compactTo > 0) {
